@@ -151,7 +151,8 @@ impl Inner {
             {
                 Ok(_) => Some(&*(parsed as *const String)),
                 Err(e) => {
-                    Arc::decrement_strong_count(parsed);
+                    // the pointer is type-erased: release it as the `Arc<String>` it is
+                    Arc::decrement_strong_count(parsed as *const String);
                     Some(&*(e as *const String))
                 }
             }
